@@ -202,7 +202,7 @@ def _run_shard(job):
                         bad = f"verdict {got!r}, reference allows {sorted(map(str, allowed))}"
                     else:
                         want = from_ref_state(rnew) if got is True else base
-                        if after[:2] != want[:2] or after[2] != base[2]:
+                        if not adapter.same_bindings(after, want) or after[2] != base[2]:
                             bad = f"verdict {got!r} but context became {after}, expected {want}"
                     changed = after != base
                     if changed or (got is not True and (rbase[0] or rbase[1])):
